@@ -211,6 +211,19 @@ def shared_name_counting(p):
     return False
 
 
+# kinds whose model particle is not the particle of the schema (generator-side expansion of substitution groups,
+# xsi:type / xsi:nil / content-kind expectations): the DFA model is not compared there
+NO_DFA_KINDS_PREFIX = ("substitution-", "xsitype-", "xsinil-", "content-", "restriction-", "element-default")
+
+
+class _NoDfa:
+    def __contains__(self, k):
+        return k.startswith(NO_DFA_KINDS_PREFIX)
+
+
+NO_DFA_KINDS = _NoDfa()
+
+
 def has_max0(p):
     if p[1] == 0 and p[2] == 0:
         return True
@@ -676,6 +689,7 @@ def run(ctx):
     prohibited_code = [k for k, v in names["V"].items() if v == "ProhibitedAttributePresent"][0]
     nviol = 0
     code_dis = [0]
+    dfa_checked = [0]
 
     def viol(tag, payload, no_input=False):
         nonlocal nviol
@@ -717,11 +731,34 @@ def run(ctx):
             ctx.count()
             codes, attrs, kids = res[k][:3]
             off_codes = res[k][4] if len(res[k]) > 4 else None
+            # the DFAContentModel model (third verdict of a cm answer) describes the content model as built with
+            # schema-full-checking off; compare it with the full-checking-off runs
+            has_dfa = (not case.get("attr")) and len(mt[k]) >= 3 and mt[k][2] in "VIF" and mt[0][0] in "VI"
+            if has_dfa and mt[k][2] == "F":
+                viol("model-fuel", dict(base, instance=k, what="DFA model ran out of fuel"), no_input=True)
+                continue
+            if has_dfa and not case["strict_penalty"][k] and case["kind"] not in NO_DFA_KINDS:
+                iv_off = (off_codes if off_codes is not None else codes) == "ok"
+                dv = mt[k][2] == "V"
+                sv_ = mt[k][1] == "V"
+                dfa_checked[0] += 1
+                if iv_off != dv:
+                    if iv_off != sv_:
+                        viol("divergence", dict(base, instance=k, impl_valid_full_off=iv_off, dfa_model_valid=dv, spec_valid=sv_,
+                                                what="implementation (schema-full-checking off) differs from the DFA model and "
+                                                "violates the Spec (pmatch = Lp)", detail=(res[k][3][:400] if len(res[k]) > 3 else codes)))
+                    else:
+                        viol("correspondence", dict(base, instance=k, impl_valid_full_off=iv_off, dfa_model_valid=dv, spec_valid=sv_,
+                                                    what="DFA model differs from the implementation although the implementation "
+                                                    "satisfies the Spec: ModelDfa08 no longer follows DFAContentModel"), no_input=True)
+                    continue
             if off_codes is not None:
-                # full checking off disagrees with full checking on
+                # full checking off disagrees with full checking on: known finding C08-counting iff the faithful DFA model
+                # mirrors the full-off verdict, the full-on verdict satisfies the Spec, and two leaves share a map entry
                 sv_ = mt[k][1] in "V1" and not case["strict_penalty"][k]
                 p_ = case.get("particle")
-                if p_ is not None and shared_name_counting(tuple_ify(p_)) and (codes == "ok") == sv_ \
+                mirrored = (not has_dfa) or ((mt[k][2] == "V") == (off_codes == "ok"))
+                if p_ is not None and shared_name_counting(tuple_ify(p_)) and (codes == "ok") == sv_ and mirrored \
                         and ctx.find_known("C08-counting"):
                     known["C08-counting"] += 1
                 else:
@@ -873,6 +910,7 @@ def run(ctx):
         if nhit:
             ctx.known_finding(fid, "%s; %d instances of this class" % (texts[fid], nhit))
     ctx.coverage["spec_oracle_checked"] = ctx.coverage["evaluations"]
+    ctx.coverage["dfa_model_compared_with_full_checking_off_runs"] = dfa_checked[0]
     if proof_broken and not ctx.violations:
         ctx.violation("obligation", {"what": "Coq obligation no longer checks and no failing input was found by the "
                                      "correspondence sweeps", "failed": failed, "output": out[-3000:]}, no_input=True)
